@@ -5,6 +5,8 @@ execute(scenario) is a pure function of the scenario and the code under test.
 """
 from __future__ import annotations
 
+import os
+
 import asyncio
 import copy
 import json
@@ -134,6 +136,7 @@ def _begin_run(sc, env, budget):
         if "at_call" in f:
             faults[int(f["at_call"])] = f.get("kind", True) or True
     rec = Recorder(env, budget=budget, faults=faults)
+    rec.always = {tuple(f["always"]) for f in (sc.get("faults") or []) if "always" in f}
     rec.keep_call_kinds = bool(sc.get("keep_call_kinds"))
 
     def log_sink(logger_name, level, exc, msg):
@@ -341,6 +344,7 @@ def exec_async(sc):
                 continue
             if kind == "settle":
                 loop.settle()
+                rec.rec("quiescent", i)
                 continue
             if kind == "obs":
                 observe(rec, st["interp"], op.get("label", f"op{i}"), census)
@@ -434,13 +438,17 @@ def exec_sync(sc):
     _attach_listeners(rec, sc)
     set_current(sim)
     meta = {"engine": "sync", "abort": None, "harness_error": None}
-    use_lines = bool(sim.preempt or sim.noise or sc.get("line_monitor"))
+    for fn_, ln_, occ_ in sched.get("preempt_lines") or ():
+        sim.preempt_lines[(fn_, int(ln_))] = int(occ_)
+    use_lines = bool(sim.preempt or sim.noise or sim.preempt_lines or sc.get("line_monitor"))
     finished = {"v": False}
     if use_lines:
+        want_loc = bool(sim.preempt_lines)
+
         def on_line(code, line):
             if finished["v"]:
                 return
-            sim.on_line()
+            sim.on_line((os.path.basename(code.co_filename), line) if want_loc else None)
         enable_line_monitor(seams.PKG_DIR, on_line)
     st = {"interp": None}
     snapshots = {}
@@ -544,6 +552,8 @@ def exec_sync(sc):
                 continue
             if kind == "settle":
                 sim.wait_quiescent()
+                if not sim.aborted:
+                    rec.rec("quiescent", i)
                 continue
             if kind == "obs":
                 observe(rec, st["interp"], op.get("label", f"op{i}"), census)
